@@ -486,6 +486,11 @@ func GetViaBrSig(viab []byte) (StrSigId, int) {
 	if offs == -1 {
 		return 0, 0 // no params
 	}
+	if c := bytes.IndexByte(viab, ','); c != -1 && c < offs {
+		// the first via value ends before the first ';' => it has no
+		// params (the ';' belongs to another via value in the same hdr.)
+		return 0, 0
+	}
 	offs++ // skip over ';'
 parse_params:
 	for {
